@@ -491,6 +491,9 @@ def r6_acceptance(ctx, repo):
     selfn, pop, new = func_params(fn)[:3]
     scan = [s for s in fn.body if isinstance(s, ast.For)]
     if len(scan) != 1:
+        # the scan under a guard (`if len(members) > 0:` around a loop that would not run anyway)
+        scan = [s for s in stmts_of(fn) if isinstance(s, ast.For) and any((access_path(c.func) or "").endswith(".compare") for c in calls_in(s))]
+    if len(scan) != 1:
         ctx.inconclusive("R6", C, where(mod, fn), "scan loop not found")
         return
     lp = scan[0]
@@ -554,7 +557,8 @@ def r6_acceptance(ctx, repo):
         ctx.inconclusive("R6", C, where(mod, lp), "the locals that collect the dominated indices / the dominated flag are not recognised", key="scan")
         return
     ctx.holds("R6", C, where(mod, lp), "scan: verdict %d -> index appended to %s; verdict %d -> %s = True" % (new_wins, domlist, old_wins, domflag), key="scan")
-    tail = fn.body[fn.body.index(lp) + 1:]
+    top_ = next((i_ for i_, s_ in enumerate(fn.body) if s_ is lp or any(x_ is lp for x_ in ast.walk(s_))), None)
+    tail = fn.body[top_ + 1:]
     table = {}
     bad = None
     for p in Enumerator(loop_counts=(0, 1)).function_paths(body_fn(tail, fn.args)):
